@@ -11,6 +11,8 @@ EXPLAINED = {
     "computed-length-above-parse-limit": "F20",
     "sample-file-name-ends-with-white-space": "F21",
     "control-points-within-epsilon": "F22",
+    "end-time-rounding": "F25",
+    "end-time-above-parse-limit": "F26",
 }
 
 
